@@ -15,12 +15,21 @@ static GLOBAL: galloc::G = galloc::G;
 static CURRENT: Mutex<String> = Mutex::new(String::new());
 static OUT_PATH: Mutex<String> = Mutex::new(String::new());
 static PLAN_SO_FAR: Mutex<String> = Mutex::new(String::new());
+static CURPLAN: Mutex<Option<std::fs::File>> = Mutex::new(None);
 
 pub fn begin_plan(header: &str) {
     if let Ok(mut p) = PLAN_SO_FAR.lock() {
         p.clear();
         p.push_str(header);
         p.push('\n');
+    }
+    if let Ok(mut g) = CURPLAN.lock() {
+        if let Some(f) = g.as_mut() {
+            use std::io::{Seek, SeekFrom};
+            let _ = f.set_len(0);
+            let _ = f.seek(SeekFrom::Start(0));
+            let _ = writeln!(f, "{}", header);
+        }
     }
 }
 
@@ -35,6 +44,11 @@ pub fn set_current(plan: usize, op_idx: usize, op: &Op) {
     if let Ok(mut p) = PLAN_SO_FAR.lock() {
         p.push_str(&op.to_text());
         p.push('\n');
+    }
+    if let Ok(mut g) = CURPLAN.lock() {
+        if let Some(f) = g.as_mut() {
+            let _ = writeln!(f, "{}", op.to_text());
+        }
     }
     if std::env::var_os("BVH_TRACE_OPS").is_some() {
         eprintln!("BEGIN plan={} op={} {}", plan, op_idx, op.to_text());
@@ -94,6 +108,9 @@ fn main() {
     let out_path = kv(&toks, "out").unwrap_or("/dev/stdout").to_string();
     let plans_path = kv(&toks, "plans_out").map(|s| s.to_string());
     *OUT_PATH.lock().unwrap() = out_path.clone();
+    if let Some(cp) = kv(&toks, "curplan") {
+        *CURPLAN.lock().unwrap() = std::fs::File::create(cp).ok();
+    }
     let mut out = std::io::BufWriter::new(std::fs::File::create(&out_path).expect("open out"));
     let sa = static_addr();
     let fo = footer_overhead();
